@@ -177,6 +177,45 @@ func Harness_C08_getSTH() {
 	vReach("fault")
 }
 
+// Harness_C08_getSTHHistory: a fault injected at any call of a request sequence: three get-sth
+// requests on one instance (regular log or mirror), each answered by the backend with a good
+// tree head, a tree head whose root hash has 31 bytes, or junk -- the very same bytes whenever
+// the same kind repeats. Each request is answered by its own reply: 200 for a good one, 5xx
+// otherwise, whatever the instance saw before.
+//
+//verif:opt maxpaths=4000 reach=replayed
+func Harness_C08_getSTHHistory() {
+	be, rl := &envBackend{}, &envReqLog{}
+	li := envLogInfo(be, rl)
+	li.signer = &envSigner{pub: &ecdsa.PublicKey{}, sig: []byte{1, 2}}
+	if vChoice("mirror", 2) == 1 {
+		li.sthGetter = &MirrorSTHGetter{li: li, st: DefaultMirrorSTHStorage{}}
+	}
+	_, isMirror := li.sthGetter.(*MirrorSTHGetter)
+	var h31 []byte
+	replies := []*trillian.SignedLogRoot{
+		envRootOf(9, make([]byte, 32), 5000000),
+		envRootTS(9, 31, 5000000, &h31),
+		{LogRoot: []byte{0x00, 0x07}},
+	}
+	kind := 0
+	be.latestRoot = func(*trillian.GetLatestSignedLogRootRequest) (*trillian.GetLatestSignedLogRootResponse, error) {
+		return &trillian.GetLatestSignedLogRootResponse{SignedLogRoot: replies[kind]}, nil
+	}
+	for call := 0; call < 3; call++ {
+		kind = vChoice("reply-kind", 3)
+		w := &envWriter{}
+		st, err := getSTH(context.Background(), li, w, envGet(nil))
+		if kind == 0 && !isMirror {
+			vAssert(st == http.StatusOK && err == nil, "a good tree head is served")
+		}
+		if kind != 0 {
+			vAssert(st >= 500 && st <= 599 && err != nil && w.writes == 0, "a garbled tree head is never answered 200, whatever the instance saw before")
+		}
+	}
+	vReach("replayed")
+}
+
 func envRootTS(size uint64, hashLen int, ts uint64, hashOut *[]byte) *trillian.SignedLogRoot {
 	h := vBytes("root-hash", hashLen)
 	*hashOut = h
